@@ -309,6 +309,86 @@ fn rep_state_scenario(actions: &str, second_request_early: bool) -> Verdict {
     e3::finish(v)
 }
 
+/// Burst family (not exhaustive in n): the peer sends `n` messages; the application polls each recv call
+/// at most `k` times and drops it if it is still pending (`now_or_never` / a zero timeout in a loop), letting the
+/// world run dry between attempts. Every message must come out, in order, once - also the one a recv call had
+/// already taken out of the queue when it was dropped at some internal suspension point.
+fn burst_scenario(ty: Ty, n: usize, k: usize) -> Verdict {
+    world::reset(world::WorldCfg { nested_env: false, yields: false, select: false, policy: 0, coop: false });
+    let c = e3::raw_conn("p");
+    c.send(&rc::handshake(ty.peer_type(), Some(b"P1")));
+    let mut want: Vec<String> = Vec::new();
+    let mut all = Vec::new();
+    for i in 0..n {
+        let body = format!("m{:05}", i).into_bytes();
+        let wire: Vec<Vec<u8>> = match ty {
+            Ty::XPub => {
+                let mut f = vec![1u8];
+                f.extend(body.clone());
+                vec![f]
+            }
+            _ => vec![body.clone(), vec![], b"t".to_vec()],
+        };
+        let exp: Vec<Vec<u8>> = if ty == Ty::Router {
+            let mut e = vec![b"P1".to_vec()];
+            e.extend(wire.clone());
+            e
+        } else {
+            wire.clone()
+        };
+        want.push(format!("Ok{}", rc::show_frames(&exp)));
+        all.extend(rc::encode_message(&wire));
+    }
+    c.send(&all);
+    let results = std::rc::Rc::new(std::cell::RefCell::new(Vec::<String>::new()));
+    let res2 = results.clone();
+    world::spawn_app("app", async move {
+        let mut sock = AnySocket::new(ty, None);
+        sock.subscribe_all().await;
+        if e3::attach_raw(sock.backend(), c).await.is_err() {
+            return;
+        }
+        let mut dry = 0;
+        for _ in 0..(4 * n + 20) {
+            match world::poll_k_then_drop(sock.recv(), k).await {
+                Some(r) => {
+                    res2.borrow_mut().push(e3::show_result(&r));
+                    dry = 0;
+                }
+                None => {
+                    // nothing this time: let everything else run until nothing can happen any more
+                    world::idle().await;
+                    dry += 1;
+                    if dry > 3 {
+                        break;
+                    }
+                }
+            }
+            if res2.borrow().len() >= n {
+                break;
+            }
+        }
+        world::set_cond("done");
+        world::wait_cond("never").await;
+        drop(sock);
+    });
+    let end = world::run(e3::HORIZON * (10 + n as u64 / 2));
+    let mut v = Verdict::default();
+    v.truncated = end != world::RunEnd::Quiescent;
+    let what = format!("{} socket, {} messages from one peer, every recv call polled at most {} time(s) and dropped if still pending", ty.name(), n, k);
+    for p in world::panics() {
+        v.violate("panic", format!("{}: {}", what, p));
+    }
+    let got = results.borrow().clone();
+    if world::panics().is_empty() && !v.truncated && got != want {
+        let missing: Vec<usize> = (0..n).filter(|i| !got.contains(&want[*i])).take(8).collect();
+        let class = if got.len() < want.len() { "burst/message-lost-after-abandoned-recv" } else if got.len() > want.len() { "burst/message-duplicated-after-abandoned-recv" } else { "burst/messages-differ-after-abandoned-recv" };
+        v.violate(class, format!("{}: {} of {} messages came out; first missing indices {:?}", what, got.len(), n, missing));
+    }
+    v.outcome_hash = rc::fnv(format!("{}:{}", got.len(), n).as_bytes());
+    e3::finish(v)
+}
+
 fn pj(p: &Params) -> Value {
     json!({"type": p.ty.name(), "cut": p.cut, "actions": p.actions, "late": p.late})
 }
@@ -359,6 +439,10 @@ pub fn run(tier: Tier, replay: Option<String>) -> i32 {
     if let Some(path) = replay {
         let v: Value = serde_json::from_str(&std::fs::read_to_string(&path).expect("read")).expect("json");
         return crate::replay::replay_e3(&v, |p| {
+            if p["scenario"] == "burst" {
+                let (ty, n, k) = (Ty::from_name(p["type"].as_str()?)?, p["n"].as_u64()? as usize, p["k"].as_u64()? as usize);
+                return Some(std::sync::Arc::new(move || burst_scenario(ty, n, k)) as zvcore::explore::Scenario);
+            }
             if p["scenario"] == "rep-state" {
                 let (a, e) = (p["actions"].as_str()?.to_string(), p["early"].as_bool()?);
                 return Some(std::sync::Arc::new(move || rep_state_scenario(&a, e)) as zvcore::explore::Scenario);
@@ -409,6 +493,14 @@ pub fn run(tier: Tier, replay: Option<String>) -> i32 {
             jobs.push(e3::job(format!("C14/REP-state/{}/{}", a, early), json!({"scenario":"rep-state","actions":a,"early":early}), 0, 4, move || rep_state_scenario(&a2, early)));
         }
     }
+    for ty in [Ty::Pull, Ty::Sub, Ty::Dealer, Ty::Router, Ty::XPub] {
+        for &nm in tier.pick(&[40usize, 140, 300][..], &[40usize, 140, 300, 1100, 2100][..]) {
+            for k in 1..=tier.pick(2usize, 3usize) {
+                n += 1;
+                jobs.push(e3::job(format!("C14/burst/{}/{}/{}", ty.name(), nm, k), json!({"scenario":"burst","type":ty.name(),"n":nm,"k":k}), 0, 4, move || burst_scenario(ty, nm, k)));
+            }
+        }
+    }
     e3::run_jobs_into(&mut ck, jobs, false);
     let ex = ck.coverage.get("e3_executions").and_then(|v| v.as_u64()).unwrap_or(0);
     ck.cov("states", n);
@@ -416,7 +508,7 @@ pub fn run(tier: Tier, replay: Option<String>) -> i32 {
     ck.cov("traces_validated_against_impl", ex);
     ck.cov("action_strings", (two.len() + one.len()) as u64);
     ck.cov("exhaustive", true);
-    ck.cov("explanation", format!("for PULL, SUB, DEALER, ROUTER, REP, XPUB and REQ: the peer's two messages (one multipart) are cut at EVERY byte offset into two chunks; the application runs EVERY well-formed action string of length <= {} over {{P: poll the recv future once (creating it if none is open), D: the next chunk arrives, X: drop the pending future}} with at most {} recv calls ({} strings) — i.e. every cancellation point relative to every arrival position — then lets everything arrive — before the next recv call, or (second variant) only once that call is parked — and calls recv to completion; every recv call runs under a waker of its own that is dead once the call has been dropped (as when the socket moves to another task), and the final calls are re-polled only when that waker fires: the results must be exactly the peer's messages, in order, once. REQ: after send(q0), abandoned recv calls must leave the socket owing that recv: a new send must fail with ReturnToSender (message intact) and recv must return reply 0; with the reply arriving before / during / after the abandoned call. REP: with a request received and its reply owed, every string of polled-and-dropped recv calls (with or without the next request already on the wire) must leave the reply acceptable and routed to the requester, and the next request deliverable. The fair queue's part (a stream is checked out and returned within one synchronous poll) is additionally covered by the always-enabled spurious Poll in E2 (C05/C06).", max_len, max_calls, two.len() + one.len()));
+    ck.cov("explanation", format!("for PULL, SUB, DEALER, ROUTER, REP, XPUB and REQ: the peer's two messages (one multipart) are cut at EVERY byte offset into two chunks; the application runs EVERY well-formed action string of length <= {} over {{P: poll the recv future once (creating it if none is open), D: the next chunk arrives, X: drop the pending future}} with at most {} recv calls ({} strings) — i.e. every cancellation point relative to every arrival position — then lets everything arrive — before the next recv call, or (second variant) only once that call is parked — and calls recv to completion; every recv call runs under a waker of its own that is dead once the call has been dropped (as when the socket moves to another task), and the final calls are re-polled only when that waker fires: the results must be exactly the peer's messages, in order, once. REQ: after send(q0), abandoned recv calls must leave the socket owing that recv: a new send must fail with ReturnToSender (message intact) and recv must return reply 0; with the reply arriving before / during / after the abandoned call. REP: with a request received and its reply owed, every string of polled-and-dropped recv calls (with or without the next request already on the wire) must leave the reply acceptable and routed to the requester, and the next request deliverable. Burst family (not exhaustive in n): 40 / 140 / 300 (thorough 1100, 2100) messages from one peer to PULL, SUB, DEALER, ROUTER, XPUB with every recv call polled at most 1..2 (3) times and dropped if still pending: every message comes out, in order, once. The fair queue's part (a stream is checked out and returned within one synchronous poll) is additionally covered by the always-enabled spurious Poll in E2 (C05/C06).", max_len, max_calls, two.len() + one.len()));
     ck.assume("the cancellation point of a future is between two polls; each poll is atomic");
     ck.conclude()
 }
